@@ -13,6 +13,11 @@ import (
 	"github.com/goatcms/goatcore/verifhook"
 )
 
+// viewKey identifies a cached view (a joined string would confuse "a:b"+"c" with "a"+"b:c")
+type viewKey struct {
+	layout, view string
+}
+
 // Provider provide templates api
 type Provider struct {
 	fs           filesystem.Filespace
@@ -25,7 +30,7 @@ type Provider struct {
 	layoutMutex  sync.RWMutex
 	layouts      map[string]*template.Template
 	viewMutex    sync.RWMutex
-	views        map[string]*template.Template
+	views        map[viewKey]*template.Template
 	funcs        template.FuncMap
 	isCached     bool
 }
@@ -39,7 +44,7 @@ func NewProvider(fs filesystem.Filespace, helpersPath, layoutPath, viewPath, ext
 		viewPath:    viewPath,
 		extension:   extension,
 		layouts:     map[string]*template.Template{},
-		views:       map[string]*template.Template{},
+		views:       map[viewKey]*template.Template{},
 		funcs:       funcs,
 		isCached:    isCached,
 	}
@@ -145,7 +150,7 @@ func (provider *Provider) layout(name string) (layoutTemplate *template.Template
 func (provider *Provider) View(layoutName, viewName string) (tmpl *template.Template, err error) {
 	var (
 		ok  bool
-		key string
+		key viewKey
 	)
 	if layoutName == "" {
 		layoutName = goathtml.DefaultLayout
@@ -153,7 +158,7 @@ func (provider *Provider) View(layoutName, viewName string) (tmpl *template.Temp
 	if viewName == "" {
 		return nil, goaterr.Errorf("goathtml.Provider: A view name is required")
 	}
-	key = layoutName + ":" + viewName
+	key = viewKey{layoutName, viewName}
 	verifhook.Yield("tmpl.lookup")
 	provider.viewMutex.RLock()
 	tmpl, ok = provider.views[key]
@@ -164,7 +169,7 @@ func (provider *Provider) View(layoutName, viewName string) (tmpl *template.Temp
 	return provider.view(layoutName, viewName, key)
 }
 
-func (provider *Provider) view(layoutName, viewName, key string) (viewTemplate *template.Template, err error) {
+func (provider *Provider) view(layoutName, viewName string, key viewKey) (viewTemplate *template.Template, err error) {
 	var (
 		ok   bool
 		path string
